@@ -97,6 +97,12 @@ def script(answers, it):
 
 
 def backend(spec, it):
+    if spec.get("_real_class"):  # a mopidy.backend.Backend subclass: flags = inherited has_*() of the providers set
+        r = spec["answers"].get("root_directory")
+        lib = "None" if not spec["lib"] else ("(Some None)" if not spec["browse"] else f"(Some (Some {g_z(r[2])}))")
+        return ("(backend_of " + g_list([g_z(it.scheme(s)) for s in spec["schemes"]])
+                + f" (mkPv {lib} {g_bool(spec['playback'])} {g_bool(spec['playlists'])}) "
+                + script(spec["answers"], it) + ")")
     return ("(mkB " + g_list([g_z(it.scheme(s)) for s in spec["schemes"]]) + " "
             + " ".join(g_bool(spec[k]) for k in ("info_ok", "lib", "browse", "playback", "playlists"))
             + " " + script(spec["answers"], it) + ")")
